@@ -328,6 +328,27 @@ ATOMS = [
 ]
 
 
+def slot_cases(tier):
+    """(template, atom) for every pair; thorough: templates with several slots also get every ORDERED PAIR of atoms (first slot, other slots)"""
+    for t in range(len(TEMPLATES)):
+        for a in range(len(ATOMS)):
+            yield [t, a]
+    if tier != "quick":
+        for t in range(len(TEMPLATES)):
+            if TEMPLATES[t].count("@") >= 2:
+                for a in range(len(ATOMS)):
+                    for b in range(len(ATOMS)):
+                        if a != b:
+                            yield [t, a, b]
+
+
+def slot_text(case):
+    t, a = case[0], case[1]
+    if len(case) == 2:
+        return TEMPLATES[t].replace("@", ATOMS[a])
+    return TEMPLATES[t].replace("@", ATOMS[a], 1).replace("@", ATOMS[case[2]])
+
+
 class SlotSystem(System):
     name = "slots"
 
@@ -355,15 +376,13 @@ class SlotSystem(System):
         return "one case = (template, atom); non-trivial = a report was produced"
 
     def cases(self):
-        for t in range(len(TEMPLATES)):
-            for a in range(len(ATOMS)):
-                yield [t, a]
+        yield from slot_cases(self.tier)
 
     def run(self, case):
-        t, a = case
-        text = TEMPLATES[t].replace("@", ATOMS[a])
+        t, a = case[0], case[1]
+        text = slot_text(case)
         v, dig, rep = run_docutils(text, self.settings, str(self.dir / "x.md"))
-        return Obs(digest=dig, nontrivial=rep, violations=v[:2], canon=(t, a))
+        return Obs(digest=dig, nontrivial=rep, violations=v[:2], canon=tuple(case))
 
 
 class SphinxSlotSystem(System):
@@ -394,13 +413,11 @@ class SphinxSlotSystem(System):
         return "one case = (template, atom); non-trivial = the read produced a warning"
 
     def cases(self):
-        for t in range(len(TEMPLATES)):
-            for a in range(len(ATOMS)):
-                yield [t, a]
+        yield from slot_cases(self.tier)
 
     def run(self, case):
-        t, a = case
-        text = TEMPLATES[t].replace("@", ATOMS[a])
+        t, a = case[0], case[1]
+        text = slot_text(case)
         if not hasattr(self, "drv"):
             self.worker_init(99)
         try:
